@@ -294,3 +294,27 @@ class ExceptionMonitor(Monitor):
             raise core.Violation('%s exception escaped %r on %s: %s' % (self.prop, ev, nid, exc),
                                  sig='exception:' + exc.split(':')[0] + exc[exc.rfind('@'):])
         return g
+
+
+class ObserverMonitor(Monitor):
+    """C18: a node without own address never votes, never asks for votes, never leads."""
+
+    def on_step(self, model, pre_w, post_w, nid, ev, pre, post, out, obs, exc, g):
+        if post.alive and not post.voter:
+            if post.leader_flag:
+                raise core.Violation('C18 read-only node %s reports itself leader (%r)' % (nid, ev), sig='observer-leads')
+            for dst, mb in out:
+                if b'request_vote' in mb or b'response_vote' in mb:
+                    m = pickle.loads(mb)
+                    if m.get('type') in ('request_vote', 'response_vote'):
+                        raise core.Violation('C18 read-only node %s sent %s to %s (%r)' % (nid, m['type'], dst, ev),
+                                             sig='observer-votes')
+        if post.alive and post.voter and post.leader_flag and not (pre.leader_flag and pre.term == post.term):
+            # became leader: must have been voted by a majority of VOTERS: votes are recorded by the safety monitor
+            votes = post_w.ghost[0].votes
+            voters = model.cfg.voter_ids()
+            n = 1 + sum(1 for (v, t), c in votes if t == post.term and c == nid and v in voters)
+            if n * 2 <= len(voters) and not model.cfg.dyn:
+                raise core.Violation('C18 %s became leader of term %d with votes of %d of %d voters (%r)' % (
+                    nid, post.term, n, len(voters), ev), sig='leader-without-voter-majority')
+        return g
